@@ -409,7 +409,7 @@ Definition conn_compute (rewrite : bytes -> bytes -> outcome bytes) (hs : list c
     (p : bytes) (unsafe : bool) (k : nat) : outcome (creply * bool * nat) :=
   if unsafe then Ok (mkCRep 400 [] ERR_BODY, false, k) else
   match find (fun h => beq (ch_path h) p) hs with
-  | None => Ok (mkCRep 404 [] ERR_BODY, false, k)
+  | None => Ok (mkCRep 404 [] ERR_BODY, true, k)   (* [handle_request] wraps its 404 in [FatResponse::cache] *)
   | Some h =>
       if ch_nonce h then
         obind (rewrite (sym_nonce (S k)) (ch_body h)) (fun b =>
